@@ -1,7 +1,7 @@
 (* C14 — the debugger command language is total, unambiguous and transport-independent. *)
 From Coq Require Import List NArith ZArith Bool String.
 From Lace Require Import CmdSpec Cmd CmdProofs.
-From Lace Require Dbg DbgBad DebugText DebugTextProofs.
+From Lace Require Dbg DbgBad DebugText DebugTextProofs Utf8.
 Import ListNotations.
 Open Scope N_scope.
 
@@ -207,3 +207,25 @@ Qed.
     rejected — the process exits. *)
 Example C14_known_finding_sudo : parse_line (str "sudo") = Some (ExitP 0).
 Proof. vm_compute. reflexivity. Qed.
+
+(** Multi-byte characters on the piped standard input (Utf8.v models the reader's own decoder:
+    `Utf8Position::from`, `read_char_from_bytes`, the validation of `from_utf8`).  Every Unicode
+    scalar value is read back from its UTF-8 encoding, consuming exactly its bytes — all
+    1,112,064 of them, by a sweep evaluated inside the kernel — so a script that is valid UTF-8 is
+    handed to the command parser character for character and never reaches the reader's
+    `expect("uh oh")`. *)
+Theorem C14_utf8_char : forall c more, Utf8.scalar c = true ->
+  Utf8.read_char (Utf8.encode c ++ more) = Utf8.RcChar c more.
+Proof. exact Utf8.read_char_encode. Qed.
+Print Assumptions C14_utf8_char.
+
+Theorem C14_utf8_text : forall cs, forallb Utf8.scalar cs = true ->
+  Utf8.decode (Utf8.encode_all cs) = Some cs.
+Proof. exact Utf8.decode_encode. Qed.
+Print Assumptions C14_utf8_text.
+
+Example C14_utf8_nonvacuous :
+  Utf8.decode [195; 169] = Some [233] /\ Utf8.decode [226; 134; 146] = Some [8594] /\
+  Utf8.decode [240; 159; 141; 139; 10] = Some [127819; 10] /\ Utf8.decode [255] = None /\ Utf8.decode [195] = None /\
+  Utf8.decode [237; 160; 128] = None.
+Proof. vm_compute. repeat split. Qed.
